@@ -27,6 +27,9 @@ MONTHS = ["January", "February", "March", "April", "May", "June", "July", "Augus
 MAX_DAYS = 32768 * 36525 + 1
 
 
+_cache = {}
+
+
 def cone_fns(F, root, stop_names=()):
     out = cfg.cone(F, [root])
     return [F.fns[i] for i in out if F.fns[i] is not None and F.fns[i]["local"] and "blocks" in F.fns[i]]
@@ -49,21 +52,46 @@ def r1_exactness(chk, F):
            detail=None if ok else {"lossy_sources": lossy[:12], "why": "to_unit()/to_seconds() round above 2^53 ns; floor()/casts on them shift fields near day ends"})
     # integer -> float casts in compute_gregorian: operands must be bounded below 2^53
     n = 0
-    defs = cfg.unique_defs(cg)
-    for bi, si, s in cfg.stmts(cg):
-        if s["k"] == "a" and s["r"]["op"] == "cast" and s["r"]["ck"] == "IntToFloat":
-            n += 1
-            tid = cfg.place_types(F, cg, cfg.operand_place(s["r"]["x"]))[-1] if cfg.operand_place(s["r"]["x"]) else s["r"]["x"]["k"]["ty"]
-            t = F.types[tid]
-            bound = None
-            if t["k"] == "int" and t["bits"] <= 32:
-                bound = 2 ** t["bits"]
-            else:
-                bound = _bound(F, cg, s["r"]["x"], defs, dec)
-            ok = bound is not None and bound < 2 ** 53
-            chk.ob(rule, "Epoch::compute_gregorian", "int->f64-operand<2^53#%d" % n, ok, "interval via provenance (decompose day count)",
-                   detail={"operand_type": F.ty_s(tid), "bound": bound, "at": F.span(s.get("sp"))})
-    chk.floor(rule, "int->float casts in compute_gregorian", n, 2)
+    # (over compute_gregorian and the private helpers / closures only it uses; a cast whose operand the provenance argument cannot
+    # bound inside one body - e.g. a day count handed to a helper as a parameter - is judged by the operand ranges observed on the
+    # interpreted paths of R6, where the helpers are inlined and decompose's outputs carry C11.R1's ranges)
+    seen = _cache.get("r6_i2f", [])
+    for g in [f for f in fns if f is cg or _private_to(F, f, cg, fns)]:
+        defs = cfg.unique_defs(g)
+        for bi, si, s in cfg.stmts(g):
+            if s["k"] == "a" and s["r"]["op"] == "cast" and s["r"]["ck"] == "IntToFloat":
+                n += 1
+                tid = cfg.place_types(F, g, cfg.operand_place(s["r"]["x"]))[-1] if cfg.operand_place(s["r"]["x"]) else s["r"]["x"]["k"]["ty"]
+                t = F.types[tid]
+                bound = None
+                how = "interval via provenance (decompose day count)"
+                if t["k"] == "int" and t["bits"] <= 32:
+                    bound = 2 ** t["bits"]
+                else:
+                    bound = _bound(F, g, s["r"]["x"], defs, dec)
+                if bound is None or bound >= 2 ** 53:
+                    obs = [(lo_, hi_) for k_, lo_, hi_ in seen if k_ == g["key"]]
+                    if obs and all(lo_ is not None and -(2 ** 53) < lo_ and hi_ < 2 ** 53 for lo_, hi_ in obs):
+                        bound, how = max(max(abs(lo_), abs(hi_)) for lo_, hi_ in obs), "operand ranges on the interpreted paths (R6)"
+                ok = bound is not None and bound < 2 ** 53
+                chk.ob(rule, "Epoch::compute_gregorian", "int->f64-operand<2^53#%d" % n, ok, how,
+                       detail={"operand_type": F.ty_s(tid), "bound": bound, "at": F.span(s.get("sp"))})
+    chk.floor(rule, "int->float casts in compute_gregorian's own cone", n, 2)
+
+
+def _private_to(F, f, root, fns):
+    """f is a closure of root's cone or a private helper called only from inside that cone (so it belongs to root's implementation)"""
+    if f.get("kind") == "closure":
+        return True
+    if f.get("vis") == "pub":
+        return False
+    ids = {g["id"] for g in fns}
+    callers = set()
+    for g in F.local_fns(False) + F.local_fns(True):
+        for bi, t in cfg.calls(g):
+            if t["f"].get("fn_id") == f["id"]:
+                callers.add(g["id"])
+    return bool(callers) and callers <= ids and f["path"].split("::")[-1] not in ("decompose", "compose", "div_rem_f64", "is_leap_year", "normalize", "from_parts")
 
 
 def _bound(F, fn, o, defs, dec, depth=0):
@@ -182,8 +210,11 @@ def r2_siblings(chk, F):
     ra = sorted({tuple((e[0], e[1]) if e[0] == "const" else ("var", "year") for e in r) for r in a["ranges"]})
     rb = sorted({tuple((e[0], e[1]) if e[0] == "const" else ("var", "year") for e in r) for r in b["ranges"]})
     want = sorted({(("const", 1900), ("var", "year")), (("var", "year"), ("const", 1900))})
-    chk.ob(rule, "compute_gregorian~maybe_from_gregorian", "same-year-ranges(1900..year,year..1900)", ra == rb == want, "sibling agreement (Range aggregates)",
-           detail=None if ra == rb == want else {"decompose": ra, "construct": rb})
+    # (a side without any year loop - a closed-form leap-day count - has no range to agree on: its day count is decided exactly, against
+    # the independent calendar oracle, by C08.R3 for the constructor and by R7 below for the decomposition)
+    rng_ok = all(r in (want, []) for r in (ra, rb)) and (ra == rb or not ra or not rb)
+    chk.ob(rule, "compute_gregorian~maybe_from_gregorian", "same-year-ranges(1900..year,year..1900)", rng_ok, "sibling agreement (Range aggregates)",
+           detail=None if rng_ok else {"decompose": ra, "construct": rb})
     refs = {e[2] for r in a["ranges"] + b["ranges"] for e in r if e[0] == "const"}
     chk.ob(rule, "compute_gregorian~maybe_from_gregorian", "same-reference-year-constant", len(refs) == 1, "constant provenance", detail=sorted(refs))
     chk.ob(rule, "compute_gregorian~maybe_from_gregorian", "same-cumulative-day-tables", a["tables"] == b["tables"] and len(a["tables"]) == 2,
@@ -227,9 +258,13 @@ def r3_field_ranges(chk, F):
     # the returned tuple
     aggs = [s for bi, si, s in cfg.stmts(cg) if s["k"] == "a" and s["p"]["l"] == 0 and not s["p"]["pj"] and s["r"]["op"] == "agg" and s["r"]["ak"] == "tuple"]
     ok = len(aggs) == 1 and len(aggs[0]["r"]["xs"]) == 7
-    chk.ob(rule, "Epoch::compute_gregorian", "returns-one-7-tuple", ok, "MIR aggregate")
     if not ok:
+        # the tuple is not assembled in compute_gregorian's own body (helpers): judged on the interpreted return paths of R6
+        for i, (nm, lim) in {3: ("hours", 24), 4: ("minutes", 60), 5: ("seconds", 60), 6: ("nanoseconds", 10 ** 9)}.items():
+            ok2, b, how = _interp_range(i, lim)
+            chk.ob(rule, "Epoch::compute_gregorian", "%s<%d-and-cast-lossless" % (nm, lim), ok2, how, detail={"bound": b})
         return
+    chk.ob(rule, "Epoch::compute_gregorian", "returns-one-7-tuple", ok, "MIR aggregate")
     xs = aggs[0]["r"]["xs"]
     limits = {3: ("hours", 24), 4: ("minutes", 60), 5: ("seconds", 60), 6: ("nanoseconds", 10 ** 9)}
     for i, (nm, lim) in limits.items():
@@ -242,8 +277,19 @@ def r3_field_ranges(chk, F):
         else:
             fits = False
         ok = b is not None and b < lim and fits
-        chk.ob(rule, "Epoch::compute_gregorian", "%s<%d-and-cast-lossless" % (nm, lim), ok, "interval evaluation from decompose's ranges (C11.R1)",
-               detail={"bound": b})
+        how = "interval evaluation from decompose's ranges (C11.R1)"
+        if not ok:
+            ok, b, how = _interp_range(i, lim)
+        chk.ob(rule, "Epoch::compute_gregorian", "%s<%d-and-cast-lossless" % (nm, lim), ok, how, detail={"bound": b})
+
+
+def _interp_range(i, lim):
+    """range of returned field i over every interpreted return path of compute_gregorian (collected by R6, which runs first): the
+    decomposition's outputs carry C11.R1's ranges, casts that may lose the value are events"""
+    rr = _cache.get("r6_ranges", {}).get(i)
+    if rr is None or rr[0] is None or _cache.get("r6_lossy"):
+        return False, None, "interpreted return paths (R6): field not bounded or a lossy cast on a path"
+    return (0 <= rr[0] and rr[1] < lim), rr[1], "bounds over the interpreted return paths (R6), decompose's ranges from C11.R1"
 
 
 def r6_time_of_day_flow(chk, F):
@@ -288,7 +334,7 @@ def r6_time_of_day_flow(chk, F):
         v = e.fresh(dest_tid, ("decompose", n, tuple(e.term(x) for x in a)))
         # the ranges decompose guarantees for its outputs (C11.R1): they make the `as u8` / `as u32` casts of the fields lossless
         cons = []
-        for i_, lim in enumerate([None, None, 23, 59, 59, 999, 999, 999]):
+        for i_, lim in enumerate([None, MAX_DAYS, 23, 59, 59, 999, 999, 999]):
             if lim is not None and isinstance(v.fs[i_], Int):
                 cons += [(v.fs[i_].lin - lim, "<="), (-v.fs[i_].lin, "<=")]
         e.add_cons(st, cons)
@@ -310,9 +356,16 @@ def r6_time_of_day_flow(chk, F):
         fix_enum(eng, st, args[1], "TAI")
         return [st]
     eng.max_block_visits = 3
+    i2f_seen = _cache.setdefault("r6_i2f", [])
+
+    def _obs(st_, x_):
+        lo_, hi_ = eng.fm_bounds(st_, x_.lin)
+        i2f_seen.append((st_.frames[-1].fn["key"] if st_.frames else "?", lo_, hi_))
+    eng.i2f_observer = _obs
     try:
         finals, args = D.run(cg, extra=setup, interior=True)
     finally:
+        eng.i2f_observer = None
         eng.max_block_visits = None
         hv.uninstall()
         A.uninstall()
@@ -369,6 +422,20 @@ def r6_time_of_day_flow(chk, F):
                      None if ok2 else {"recomposed": repr(decs[srcs[0]][0][0])[:160], "first": repr(decs[0][0][0])[:160]})
         # the decomposition whose hours/minutes/seconds are returned
         r = st.ret
+        # interpreted ranges of the returned time-of-day fields (R3's semantic fallback)
+        rr = _cache.setdefault("r6_ranges", {})
+        for i_ in (3, 4, 5, 6):
+            if isinstance(r.fs[i_], Int):
+                lo_, hi_ = eng.fm_bounds(st, r.fs[i_].lin)
+            else:
+                lo_, hi_ = None, None
+            cur = rr.get(i_)
+            if lo_ is None or (cur is not None and cur[0] is None):
+                rr[i_] = (None, None)
+            else:
+                rr[i_] = (lo_, hi_) if cur is None else (min(cur[0], lo_), max(cur[1], hi_))
+        if any(e_["kind"] == "lossy_cast" for e_ in st.events):
+            _cache["r6_lossy"] = True
         cand = [dv for da, dv in decs if isinstance(dv, Struct) and all(isinstance(r.fs[i], Int) and _cast_of(r.fs[i], dv.fs[w]) for i, w in ((3, 2), (4, 3), (5, 4)))]
         note("hours,minutes,seconds=outputs-2,3,4-of-one-decomposition", bool(cand),
              None if cand else {"ret": [repr(x)[:80] for x in r.fs[3:6]], "decompositions": [(repr(da[0])[:100], repr(dv)[:200]) for da, dv in decs]})
@@ -619,12 +686,14 @@ def r5_accessors(chk, F, rule="C09.R5", which=(("year", 0), ("month_name", 1))):
 
 
 def run(chk, F, tier):
+    for k_ in ("r6_ranges", "r6_lossy", "r6_i2f"):
+        _cache.pop(k_, None)
+    r6_time_of_day_flow(chk, F)  # first: R1 and R3 fall back on what its interpreted paths observed
     r1_exactness(chk, F)
     r2_siblings(chk, F)
     r3_field_ranges(chk, F)
     r4_writers(chk, F)
     r5_accessors(chk, F)
-    r6_time_of_day_flow(chk, F)
     from . import c09_year
     c09_year.run_rule(chk, F, tier)
     eng, D = ctx(F)
